@@ -33,3 +33,133 @@ UNITS["parents"] = {
          },
     ],
 }
+
+# ------------------------------------------------------------------------------------------------
+# file::write_raw_cel_to_image  (C02 / C06: placement, clipping, row-major index, opacity product –
+# FUNCTIONAL correctness for unbounded sizes and all i16 offsets; C05: safety under pixels.len()==w*h)
+# ------------------------------------------------------------------------------------------------
+RAW_INV_COMMON = (
+    "            image.w() == old(image).w(), image.h() == old(image).h(), image.w() <= 65535, image.h() <= 65535,\n"
+    "            img_width == image.w(), img_height == image.h(),\n"
+    "            x0 == cel_data.x as i32, y0 == cel_data.y as i32,\n"
+    "            x_end == x0 + (image_size.width as i32), y_end == y0 + (image_size.height as i32),\n"
+    "            *width == image_size.width, *height == image_size.height,\n"
+    "            pixels.len() == (image_size.width as int) * (image_size.height as int),\n"
+    "            blend_fn.mode == *blend_mode,\n"
+    "            opacity as int == spec_round8(outer_opacity as int, cel_data.opacity as int),\n")
+UNITS["raster_raw"] = {
+    "prelude_sections": ["image", "raster_spec"],
+    "items": [
+        {"kind": "struct", "file": "cel", "name": "CelCommon", "keep": None},
+        {"kind": "struct", "file": "cel", "name": "ImageSize", "keep": None},
+        {"kind": "fn", "file": "file", "name": "write_raw_cel_to_image",
+         "rules": ["R1", "R2", "R3", "R6"],
+         # R-pre: what validation establishes (decoded pixel count == declared size) and what the callers
+         # establish (the canvas is created from the sprite's u16 width/height)
+         "requires": ("        pixels.len() == (image_size.width as int) * (image_size.height as int),\n"
+                      "        old(image).w() <= 65535, old(image).h() <= 65535,"),
+         "ensures": ("        final(image).w() == old(image).w(), final(image).h() == old(image).h(),\n"
+                     "        forall|cx: int, cy: int| 0 <= cx < old(image).w() && 0 <= cy < old(image).h() ==>\n"
+                     "            #[trigger] final(image).at(cx, cy) == raw_cel_pixel(old(image), cel_data, image_size, pixels@, *blend_mode, outer_opacity, cx, cy),"),
+         "loops": {
+             1: ("        invariant\n" + RAW_INV_COMMON +
+                 "            forall|cx: int, cy: int| 0 <= cx < image.w() && 0 <= cy < image.h() ==>\n"
+                 "                #[trigger] image.at(cx, cy) == (if cy < y { raw_cel_pixel(old(image), cel_data, image_size, pixels@, *blend_mode, outer_opacity, cx, cy) } else { old(image).at(cx, cy) }),"),
+             2: ("            invariant\n" + RAW_INV_COMMON.replace("            ", "                ") +
+                 "                y0 <= y < y_end, 0 <= y < img_height,\n"
+                 "                forall|cx: int, cy: int| 0 <= cx < image.w() && 0 <= cy < image.h() ==>\n"
+                 "                    #[trigger] image.at(cx, cy) == (if cy < y || (cy == y && cx < x) { raw_cel_pixel(old(image), cel_data, image_size, pixels@, *blend_mode, outer_opacity, cx, cy) } else { old(image).at(cx, cy) }),"),
+         },
+         "hints": [
+             ("let idx =",
+              "            assert(0 <= (y - y0) < *height && 0 <= (x - x0) < *width);\n"
+              "            assert(((y - y0) as int) * (*width as int) + ((x - x0) as int) < (*width as int) * (*height as int)) by (nonlinear_arith)\n"
+              "                requires 0 <= (y - y0) < *height, 0 <= (x - x0) < *width;\n"
+              "            assert(((y - y0) as int) * (*width as int) <= 65535 * 65535) by (nonlinear_arith)\n"
+              "                requires 0 <= (y - y0) <= 65535, 0 <= (*width as int) <= 65535;", "before"),
+         ]},
+    ],
+}
+
+# ------------------------------------------------------------------------------------------------
+# tile lookups and the tilemap rasteriser  (C05 safety under R-pre, C08 lookup contract, C16 no wrap)
+# ------------------------------------------------------------------------------------------------
+TM_COMMON = (
+    "            image.w() == old(image).w(), image.h() == old(image).h(), image.w() <= 65535, image.h() <= 65535,\n"
+    "            tilemap_wf(tilemap_data), tiles_in_tileset(tilemap_data, tileset, pixels.len() as int),\n"
+    "            tilemap_width == tilemap_data.width as i32, tilemap_height == tilemap_data.height as i32,\n"
+    "            tile_size == tileset.tile_size, tile_width == tile_size.width as i32, tile_height == tile_size.height as i32,\n"
+    "            cel_x == cel_data.x as i32, cel_y == cel_data.y as i32,\n")
+UNITS["tilemap"] = {
+    "prelude_sections": ["arch", "image", "tilemap_spec"],
+    "items": [
+        {"kind": "struct", "file": "cel", "name": "CelCommon", "keep": None},
+        {"kind": "struct", "file": "tile", "name": "TileId", "keep": None, "attrs": "#[derive(Clone, Copy)]\n"},
+        {"kind": "struct", "file": "tile", "name": "Tile", "keep": None},
+        {"kind": "struct", "file": "tile", "name": "Tiles", "keep": None},
+        {"kind": "index_impl_check", "file": "tile", "type": "Tiles"},
+        {"kind": "struct", "file": "tilemap", "name": "TilemapData", "keep": ["width", "height", "tiles"],
+         "rewrites": [("tile::Tiles", "Tiles")]},
+        {"kind": "struct", "file": "tileset", "name": "TileSize", "keep": None, "attrs": "#[derive(Clone, Copy)]\n"},
+        {"kind": "struct", "file": "tileset", "name": "Tileset", "keep": ["tile_size"], "header": "struct Tileset "},
+        {"kind": "fn", "file": "tileset", "name": "width", "impl_of": "TileSize", "impl_filter": r"impl\s+TileSize", "ret": "r", "ensures": "        r == self.width,"},
+        {"kind": "fn", "file": "tileset", "name": "height", "impl_of": "TileSize", "impl_filter": r"impl\s+TileSize", "ret": "r", "ensures": "        r == self.height,"},
+        {"kind": "fn", "file": "tileset", "name": "pixels_per_tile", "impl_of": "TileSize", "impl_filter": r"impl\s+TileSize", "ret": "r",
+         "ensures": "        r == (self.width as int) * (self.height as int),",
+         "hints": [("self.width as u32 *",
+                    "        assert((self.width as int) * (self.height as int) <= 65535 * 65535) by (nonlinear_arith)\n"
+                    "            requires 0 <= (self.width as int) <= 65535, 0 <= (self.height as int) <= 65535;", "before")]},
+        {"kind": "fn", "file": "tileset", "name": "tile_size", "impl_of": "Tileset", "impl_filter": r"impl<P>\s+Tileset<P>", "impl_header": "Tileset",
+         "ret": "r", "ensures": "        r == self.tile_size,"},
+        {"kind": "fn", "file": "tilemap", "name": "width", "impl_of": "TilemapData", "ret": "r", "ensures": "        r == self.width,"},
+        {"kind": "fn", "file": "tilemap", "name": "height", "impl_of": "TilemapData", "ret": "r", "ensures": "        r == self.height,"},
+        {"kind": "fn", "file": "tilemap", "name": "tile", "impl_of": "TilemapData", "ret": "r",
+         "requires": "        tilemap_wf(self),",
+         "ensures": ("        (r is Some) == (x < self.width && y < self.height),\n"
+                     "        r is Some ==> *(r->0) == self.tiles.0[(y as int) * (self.width as int) + (x as int)],"),
+         "body_rewrites": [("&self.tiles[index]", "&self.tiles.0[index]")],
+         "hints": [("let index =",
+                    "        assert((y as int) * (self.width as int) + (x as int) < (self.width as int) * (self.height as int)) by (nonlinear_arith)\n"
+                    "            requires 0 <= (x as int) < (self.width as int), 0 <= (y as int) < (self.height as int);\n"
+                    "        assert((y as int) * (self.width as int) <= 65535 * 65535) by (nonlinear_arith)\n"
+                    "            requires 0 <= (y as int) <= 65535, 0 <= (self.width as int) <= 65535;", "before")]},
+        {"kind": "fn", "file": "file", "name": "tile_slice", "ret": "r", "rules": ["R1", "R6", "R10"],
+         "requires": "        (tile_id.0 as int + 1) * ((tile_size.width as int) * (tile_size.height as int)) <= pixels.len(),",
+         "ensures": ("        r.len() == (tile_size.width as int) * (tile_size.height as int),\n"
+                     "        r@ == pixels@.subrange((tile_id.0 as int) * ((tile_size.width as int) * (tile_size.height as int)),\n"
+                     "                              (tile_id.0 as int + 1) * ((tile_size.width as int) * (tile_size.height as int))),"),
+         "hints": [("let start =",
+                    "    let ghost ppt = (tile_size.width as int) * (tile_size.height as int);\n"
+                    "    assert(ppt * (tile_id.0 as int) + ppt == (tile_id.0 as int + 1) * ppt) by (nonlinear_arith);\n"
+                    "    assert(ppt * (tile_id.0 as int) == (tile_id.0 as int) * ppt) by (nonlinear_arith);\n"
+                    "    assert(0 <= ppt * (tile_id.0 as int)) by (nonlinear_arith) requires 0 <= ppt, 0 <= (tile_id.0 as int);", "before")]},
+        {"kind": "fn", "file": "file", "name": "write_tilemap_cel_to_image",
+         "rules": ["R1", "R3", "R6", "R7"],
+         "requires": ("        tilemap_wf(tilemap_data), tiles_in_tileset(tilemap_data, tileset, pixels.len() as int),\n"
+                      "        old(image).w() <= 65535, old(image).h() <= 65535,"),
+         "ensures": "        final(image).w() == old(image).w(), final(image).h() == old(image).h(),",
+         "loops": {
+             1: "        invariant\n" + TM_COMMON,
+             2: "            invariant\n" + TM_COMMON + "            0 <= tile_y < tilemap_height,\n",
+             3: ("                invariant\n" + TM_COMMON + "            0 <= tile_y < tilemap_height, 0 <= tile_x < tilemap_width,\n"
+                 "            tile_pixels.len() == (tile_size.width as int) * (tile_size.height as int),\n"),
+             4: ("                    invariant\n" + TM_COMMON + "            0 <= tile_y < tilemap_height, 0 <= tile_x < tilemap_width, 0 <= pixel_y < tile_height,\n"
+                 "            tile_pixels.len() == (tile_size.width as int) * (tile_size.height as int),\n"),
+         },
+         "hints": [
+             ("let tile_pixels =",
+              "            assert(tilemap_data.tiles.0[(tile_y as int) * (tilemap_data.width as int) + (tile_x as int)] == *tile);\n"
+              "            assert(0 <= (tile_y as int) * (tilemap_data.width as int) + (tile_x as int) < tilemap_data.tiles.0.len()) by (nonlinear_arith)\n"
+              "                requires 0 <= (tile_x as int) < (tilemap_data.width as int), 0 <= (tile_y as int) < (tilemap_data.height as int),\n"
+              "                    tilemap_data.tiles.0.len() == (tilemap_data.width as int) * (tilemap_data.height as int);", "before"),
+             ("let pixel_idx =",
+              "                    assert((pixel_y as int) * (tile_width as int) + (pixel_x as int) < (tile_size.width as int) * (tile_size.height as int)) by (nonlinear_arith)\n"
+              "                        requires 0 <= (pixel_x as int) < (tile_width as int), 0 <= (pixel_y as int) < (tile_height as int),\n"
+              "                            tile_width as int == tile_size.width as int, tile_height as int == tile_size.height as int;\n"
+              "                    assert((pixel_y as int) * (tile_width as int) <= 65535 * 65535) by (nonlinear_arith)\n"
+              "                        requires 0 <= (pixel_y as int) <= 65535, 0 <= (tile_width as int) <= 65535;\n"
+              "                    assert((tile_x as int) * (tile_width as int) <= 65535 * 65535 && (tile_y as int) * (tile_height as int) <= 65535 * 65535) by (nonlinear_arith)\n"
+              "                        requires 0 <= (tile_x as int) <= 65535, 0 <= (tile_width as int) <= 65535, 0 <= (tile_y as int) <= 65535, 0 <= (tile_height as int) <= 65535;", "before"),
+         ]},
+    ],
+}
